@@ -364,7 +364,7 @@ def run(ctx):
     for i in range(2 if ctx.quick else 30):
         explore2.explore(ctx, "C12", r.fork(), kindsA=("plan",), kindsB=(("new", "set"), ("claim_oldest", "sequence", "new+state"))[i % 2], max_points=(7 if ctx.quick else 40),
                          state_cmds=6, with_stat=True, b_modes=("complete",))
-    ctx.cov["rule"] = ("byte-level files (valid, torn, CRLF, junk, bit flips) → Go readEvents/appendEvents vs the Lean storage model incl. line numbers; CLI-built logs mutated 14 ways "
+    ctx.cov["rule"] = ("plan parked at every point against appending commands (what it publishes contains their lines); byte-level files (valid, torn, CRLF, junk, bit flips) → Go readEvents/appendEvents vs the Lean storage model incl. line numbers; CLI-built logs mutated 14 ways "
                        "(truncation at lines/bytes, bit flip, conflict markers, shuffles, duplicates, unknown types, wrong field types, scalar lines, CRLF, blank lines, missing final newline, 11 MB line) "
                        "× 15 read commands × 3–6 repetitions: exit 0/1 within 8 s, no panic text, message names file:line, byte-identical output, store files unchanged; hand-merged equal created_at; "
                        "strace of read commands; every mutation other than compact keeps earlier events as a prefix")
